@@ -10,14 +10,14 @@ package twig
 func vhC02Engine() (*Engine, *ArrayLoader) {
 	e := New()
 	al := NewArrayLoader(map[string]string{
-		"inc":         "I{{ x }}",
-		"fresh":       "F{{ x }}{% include 'inc' %}",
-		"dir/child":   "{% extends './base' %}{% block b %}c{{ x }}{% endblock %}",
-		"dir/base":    "[{% block b %}d{% endblock %}]",
-		"other/page":  "{% include './part' %}",
-		"other/part":  "P{{ x }}",
-		"lib":         "{% macro m(p) %}({{ p }}){% endmacro %}",
-		"useslib":     "{% import 'lib' as l %}{{ l.m(x) }}",
+		"inc":        "I{{ x }}",
+		"fresh":      "F{{ x }}{% include 'inc' %}",
+		"dir/child":  "{% extends './base' %}{% block b %}c{{ x }}{% endblock %}",
+		"dir/base":   "[{% block b %}d{% endblock %}]",
+		"other/page": "{% include './part' %}",
+		"other/part": "P{{ x }}",
+		"lib":        "{% macro m(p) %}({{ p }}){% endmacro %}",
+		"useslib":    "{% import 'lib' as l %}{{ l.m(x) }}",
 	})
 	e.RegisterLoader(al)
 	e.RegisterString("t", "a{{ x }}{% include 'inc' %}")
